@@ -28,7 +28,8 @@ EXPLANATION = (
     "it. (R4) In ReadEntityRef `id += addFileId` dominates FindFileId(id). (R5) maxFileId, from which the offset is computed, is a high-water mark: "
     "it is only written -1, max+1 or an instance id under the guard `id > MaxFileId()` (writer rule shared with C13). (R5) writers of maxFileId (shared with C13 R3). (R6) every InstMgr method that empties the master array leaves maxFileId below the threshold of STEPfile::SetFileIdIncrement's emptiness test. Not decided: that earlier instances keep "
     "their values; behaviour for ids near INT_MAX."
-    " (R7, shared with C03 R9) an instance id read from the file is never converted to a narrower integer type.")
+    " (R7, shared with C03 R9) an instance id read from the file is never converted to a narrower integer type."
+    " (R6i) every path through STEPfile::SetFileIdIncrement assigns _fileIdIncr.")
 
 FAMILY = r"^(addFileId|idIncr\w*|fileIdIncr)$"
 # header-section instances live in the separate _headerInstances manager, are numbered by the reader
@@ -333,6 +334,7 @@ def run(prog, res, tier):
     from rules import c03_more as _c03m
     _c03m.r9_parsed_number_not_narrowed(prog, res, rule="R7.parsed_id_not_narrowed")
     _c13.r3_clear_resets_max(prog, res, rule="R6.cleared_manager_is_recognised_empty")
+    _c13.r3_increment_always_recomputed(prog, res, rule="R6.increment_always_recomputed")
     r1(prog, res)
     r2(prog, res)
     r3(prog, res)
